@@ -1,7 +1,7 @@
 (* C02 - No capacity is ever lost and no waiting caller is stranded. *)
 From Coq Require Import List ZArith Bool.
 From DP Require Import Common.Tab Managed.Model Managed.Contrib Managed.All Managed.Ops Managed.Ops2
-  Managed.Thms.
+  Managed.Thms Managed.Probe.
 Import ListNotations.
 Open Scope Z_scope.
 
@@ -65,6 +65,30 @@ Theorem c02_unwind_terminates : forall c n s t r, unwind_len (pcof s t) = Some (
   exists s', run c s (repeat (Step t) n) = Some s' /\ pcof s' t = PDone r.
 Proof. exact t_unwind_terminates. Qed.
 
+(* operational form of "no capacity is ever lost": a pool at rest to which every object has
+   been returned or taken hands out max_size objects concurrently again - max_size further
+   get() calls, the manager and the hooks answering Ok, all end with an object, whatever the
+   history was (failed, timed-out, cancelled, panicking gets, resizes with outstanding debt,
+   retains), for any number of hooks and either queue mode *)
+Theorem c02_capacity_usable : forall c s,
+  Reachable c s -> alive s = true -> closed s = false -> at_rest s -> out s = [] ->
+  exists tr s', run c s tr = Some s' /\ Reachable c s'
+    /\ zlen (out s') = maxs s /\ maxs s' = maxs s
+    /\ (forall i, (i < Z.to_nat (maxs s))%nat -> pcof s' (length (tasks s) + i) = PDone ROk)
+    /\ (forall u, (u < length (tasks s))%nat -> pcof s' u = pcof s u).
+Proof. exact capacity_usable. Qed.
+
+(* ... and one get() succeeds whenever the usable capacity permits - debt is positive *)
+Theorem c02_one_get : forall c s,
+  alive s = true -> closed s = false -> 0 <= debt s -> debt s < permits s ->
+  exists tr s', run c s tr = Some s' /\ pcof s' (length (tasks s)) = PDone ROk
+    /\ zlen (out s') = zlen (out s) + 1
+    /\ permits s' = permits s - debt s - 1 /\ debt s' = 0
+    /\ closed s' = false /\ alive s' = true /\ maxs s' = maxs s
+    /\ (forall u, u <> length (tasks s) -> pcof s' u = pcof s u)
+    /\ length (tasks s') = S (length (tasks s)).
+Proof. exact one_get. Qed.
+
 (* non-vacuity: the pool_drained scenario - max_size 1, the object is out, a second get waits;
    the return wakes it and it is handed the same object *)
 Definition g0 := {| gw := TNone; gc := TNone; gr := TNone |}.
@@ -105,3 +129,19 @@ Print Assumptions c02_close_wakes.
 Print Assumptions c02_progress.
 Print Assumptions c02_gate_accepts.
 Print Assumptions c02_unwind_terminates.
+
+(* non-vacuity of c02_capacity_usable: max_size 2, both objects out, resize(1) (one permit owed),
+   both returned: at rest, nothing out, open - the premises hold with debt still to be settled *)
+Definition cfg2 := {| max0 := 2; lifo := false; pre := []; post := []; pcr := []; runtime := false |}.
+Definition tr_debt : list label :=
+  [Start 0 (OpGet g0); Step 0; Step 0; Step 0; Step 0; Env 0 OOk; Step 0;
+   Start 1 (OpGet g0); Step 1; Step 1; Step 1; Step 1; Env 1 OOk; Step 1;
+   Start 2 (OpResize 1); Step 2; Step 2;
+   Start 3 (OpDrop 0); Step 3; Step 3; Step 3; Step 3;
+   Start 4 (OpDrop 1); Step 4; Step 4; Step 4].
+Example c02_nonvacuous_rest :
+  exists s, run cfg2 (init cfg2) tr_debt = Some s /\ alive s = true /\ closed s = false
+            /\ at_rest s /\ out s = [] /\ maxs s = 1 /\ debt s = 1 /\ permits s = 2.
+Proof. eexists. vm_compute. repeat split. Qed.
+Print Assumptions c02_capacity_usable.
+Print Assumptions c02_one_get.
